@@ -39,6 +39,8 @@ def family(prop, tier, exe, wd):
             # the clauses of these two are the most expensive on the 346-mapping built-in: one sub-alphabet per built-in in the quick tier
             big = [j for j in big if not (j["id"].startswith("builtin-") and not j["id"].endswith("-0"))]
         jobs = big + empty + small
+        if prop == "C01" or thorough:
+            jobs += F.abs_cross()
         if prop == "C05":
             d = F.dist_family("dist", 1 if not thorough else 3, 40 if not thorough else 400, sd, 0 if not thorough else 200)
             jobs += d if thorough else [j for i, j in enumerate(d) if i % 3 == 0]
@@ -52,7 +54,7 @@ def family(prop, tier, exe, wd):
         jobs = [j for j in big if j["id"].startswith("builtin-super-dvorak") or j["id"].startswith("readme")] + small
     elif prop == "C08":
         small = F.small_family("abs", F.has_abs, sz["per_pair"], sz["n_triples"] * 2, sd, sz["extra_pairs"], sz["extra_triples"] * 2)
-        jobs = small + abs_extra(thorough)
+        jobs = small + abs_extra(thorough) + F.abs_cross(every=1 if thorough else 2)
     else:
         raise ToolError("no family for " + prop)
     return jobs
@@ -496,7 +498,7 @@ def check_c06(tier, replay_file=None):
             builtins = [json.loads(l) for l in run_tmv(exe, ["builtins"]).splitlines() if l.strip()]
             jobs = F.builtin_jobs(builtins, thorough) + F.readme_jobs() + [F.job("empty", [])] + \
                 F.small_family("all", F.anyl, sz["per_pair"], sz["n_triples"], seed() if thorough else None, sz["extra_pairs"], sz["extra_triples"]) + \
-                F.small_family("abs", F.has_abs, 1, 100 if not thorough else 800, None, 0, 0, ones=False) + abs_extra(thorough)
+                F.small_family("abs", F.has_abs, 1, 100 if not thorough else 800, None, 0, 0, ones=False) + abs_extra(thorough) + F.abs_cross(every=1 if thorough else 2)
             if not thorough:
                 jobs = [j for j in jobs if not j["id"].startswith("builtin-super-dvorak-1")]
             stats, shards = tabulate(exe, wd, jobs, PROCS)
